@@ -3,6 +3,7 @@ package rules
 import (
 	"fmt"
 	"go/token"
+	"go/types"
 	"strings"
 
 	"golang.org/x/tools/go/ssa"
@@ -143,7 +144,7 @@ func runC16(c *core.Ctx) {
 	if begin != nil {
 		var get, del *core.Site
 		var credit, deleg *core.Site
-		for _, s := range core.Sites(begin) {
+		for _, s := range c.GroupSites(begin) {
 			switch {
 			case s.MethodIs(core.PkgState+"/frozenfunds", "FrozenFunds", "GetFrozenFunds"):
 				get = s
@@ -160,7 +161,7 @@ func runC16(c *core.Ctx) {
 		if get == nil || del == nil || credit == nil || deleg == nil {
 			c.Unk("C16.release", "BeginBlock/shape", begin.Pos(), "GetFrozenFunds / Delete / AddBalance(item.Address…) / Delegate not all found in BeginBlock")
 		} else {
-			hp := core.Path(get.Arg(0))
+			hp := core.Path(c.CallerArg(get.Arg(0)))
 			c.Check(strings.HasSuffix(hp, "req.Header.Height") || hp == "req.Header.Height", "C16.release", "BeginBlock/only-own-height", get.Pos(), "matured items are those of req.Header.Height", "BeginBlock releases frozen funds of a height other than the block's: "+hp)
 			branch := func(s *core.Site) (bool, bool) { // (found, moveIdIsZero)
 				for _, f := range c.FactsAt(s.Instr, 0) {
@@ -181,7 +182,7 @@ func runC16(c *core.Ctx) {
 			c.Check(strings.HasSuffix(core.Path(credit.Arg(1)), ".Coin") && strings.HasSuffix(core.Path(credit.Arg(2)), ".Value"), "C16.release", "BeginBlock/credit-is-item", credit.Pos(), "credits item.Coin / item.Value to item.Address", "the balance credit does not use the item's own coin and value")
 			c.Check(strings.HasSuffix(core.Path(deleg.Arg(0)), ".Address") && strings.HasSuffix(core.Path(deleg.Arg(2)), ".Coin") && strings.HasSuffix(core.Path(deleg.Arg(3)), ".Value"), "C16.release", "BeginBlock/delegate-is-item", deleg.Pos(), "delegates item.Coin / item.Value for item.Address", "the matured move does not delegate the item's own address, coin and value")
 			// delete after the loop, same height object
-			c.Check(core.Dominates(get.Instr, del.Instr) && strings.Contains(core.Path(del.Arg(0)), "Height()"), "C16.release", "BeginBlock/delete-after-release", del.Pos(), "the released height is deleted afterwards", "released frozen funds are not deleted (they would be paid again) or another height is deleted")
+			c.Check(get.Fn == del.Fn && core.Dominates(get.Instr, del.Instr) && (strings.Contains(core.Path(del.Arg(0)), "Height()") || core.SamePath(c.CallerArg(del.Arg(0)), c.CallerArg(get.Arg(0))) || strings.Contains(core.Path(c.CallerArg(del.Arg(0))), "Height()")), "C16.release", "BeginBlock/delete-after-release", del.Pos(), "the released height is deleted afterwards", "released frozen funds are not deleted (they would be paid again) or another height is deleted")
 		}
 	}
 	// who else deletes / pays frozen funds
@@ -193,7 +194,7 @@ func runC16(c *core.Ctx) {
 		for _, s := range core.Sites(fn) {
 			if s.MethodIs(core.PkgState+"/frozenfunds", "FrozenFunds", "Delete") {
 				nw++
-				c.Check(core.ShortFn(fn) == "(*coreV2/minter.Blockchain).BeginBlock", "C16.release", "who-deletes/"+core.ShortFn(fn), s.Pos(), "only BeginBlock deletes frozen funds", "frozen funds are deleted outside BeginBlock")
+				c.Check(core.ShortFn(c.GroupRoot(fn)) == "(*coreV2/minter.Blockchain).BeginBlock", "C16.release", "who-deletes/"+core.ShortFn(c.GroupRoot(fn)), s.Pos(), "only BeginBlock deletes frozen funds", "frozen funds are deleted outside BeginBlock")
 			}
 		}
 	}
@@ -394,4 +395,126 @@ func checkHeightPublished(c *core.Ctx, rule string) {
 			"this call reads blockchain.height ("+reaches+") but EndBlock has not yet stored the height of the block it is ending: the callee works with the previous block's number (stakes of a removed candidate are frozen until one block too early)")
 	}
 	c.Floor(rule, n, 1, "calls in EndBlock that read the published block height")
+}
+
+// checkFieldReadyBeforeRead — a field of the application object that one ABCI method (re)builds
+// for the block it is processing — the presence map filled from the block's LastCommitInfo —
+// has to be complete before that same method calls anything that reads it: every call in fn that
+// can reach a reader of the field comes after every write of the field in fn (no write is
+// reachable from the call, and a write dominates it).
+func checkFieldReadyBeforeRead(c *core.Ctx, rule string, fn *ssa.Function, typ *types.Named, field string) int {
+	isFieldAddr := func(v ssa.Value) bool {
+		fa, ok := v.(*ssa.FieldAddr)
+		if !ok || fieldNameOf(fa) != field {
+			return false
+		}
+		n := namedOf(fa.X.Type())
+		return n != nil && n.Obj() == typ.Obj()
+	}
+	loadsField := func(v ssa.Value) bool {
+		ld, ok := core.Unwrap(v).(*ssa.UnOp)
+		return ok && ld.Op == token.MUL && isFieldAddr(ld.X)
+	}
+	readers := map[*ssa.Function]bool{}
+	for _, g := range c.AllFns {
+		if g.Blocks == nil || !c.InRepo(g) || g == fn {
+			continue
+		}
+		for _, b := range g.Blocks {
+			for _, in := range b.Instrs {
+				switch x := in.(type) {
+				case *ssa.UnOp:
+					if x.Op == token.MUL && isFieldAddr(x.X) {
+						readers[g] = true
+					}
+				case *ssa.Call:
+					if strings.HasPrefix(core.CalleeName(&x.Call), "sync/atomic.Load") && len(x.Call.Args) == 1 && isFieldAddr(x.Call.Args[0]) {
+						readers[g] = true
+					}
+				}
+			}
+		}
+	}
+	var writes []ssa.Instruction
+	for _, b := range fn.Blocks {
+		for _, in := range b.Instrs {
+			switch x := in.(type) {
+			case *ssa.Store:
+				if isFieldAddr(x.Addr) {
+					writes = append(writes, in)
+				}
+			case *ssa.MapUpdate:
+				if loadsField(x.Map) {
+					writes = append(writes, in)
+				}
+			case *ssa.Call:
+				if strings.HasPrefix(core.CalleeName(&x.Call), "sync/atomic.Store") && len(x.Call.Args) == 2 && isFieldAddr(x.Call.Args[0]) {
+					writes = append(writes, in)
+				}
+			}
+		}
+	}
+	// a helper of fn that writes the field: its call is where fn writes
+	helperWrites := map[*ssa.Function]bool{}
+	for _, h := range c.Helpers(fn) {
+		for _, b := range h.Blocks {
+			for _, in := range b.Instrs {
+				switch x := in.(type) {
+				case *ssa.Store:
+					if isFieldAddr(x.Addr) {
+						helperWrites[h] = true
+					}
+				case *ssa.MapUpdate:
+					if loadsField(x.Map) {
+						helperWrites[h] = true
+					}
+				case *ssa.Call:
+					if strings.HasPrefix(core.CalleeName(&x.Call), "sync/atomic.Store") && len(x.Call.Args) == 2 && isFieldAddr(x.Call.Args[0]) {
+						helperWrites[h] = true
+					}
+				}
+			}
+		}
+	}
+	for _, s := range core.Sites(fn) {
+		if sc := s.Common.StaticCallee(); sc != nil && helperWrites[sc] {
+			writes = append(writes, s.Instr)
+		}
+	}
+	if len(writes) == 0 {
+		c.Bad(rule, fn.Name()+"/"+field+"/writes", fn.Pos(), fn.Name()+" no longer builds blockchain."+field+" for the block it processes")
+		return 0
+	}
+	cg := c.CG()
+	n := 0
+	for _, s := range core.Sites(fn) {
+		sc := s.Common.StaticCallee()
+		if sc == nil || !c.InRepo(sc) || helperWrites[sc] {
+			continue
+		}
+		reaches := ""
+		reach := cg.Reachable([]*ssa.Function{sc}, nil)
+		for g := range reach {
+			if readers[g] {
+				reaches = core.PathTo(reach, g)
+			}
+		}
+		if reaches == "" {
+			continue
+		}
+		n++
+		key := fmt.Sprintf("%s/%s/%s#%d", fn.Name(), field, methodName(s), n)
+		dominated, late := false, ""
+		for _, w := range writes {
+			if core.Dominates(w, s.Instr) {
+				dominated = true
+			}
+			if instrReaches(s.Instr, w) {
+				late = c.PosStr(w.Pos())
+			}
+		}
+		c.Check(dominated && late == "", rule, key, s.Pos(), "blockchain."+field+" is complete when this call reads it ("+reaches+")",
+			"this call reads blockchain."+field+" ("+reaches+") before "+fn.Name()+" has finished building it for the current block (a write at "+late+" comes later, or none comes before): the callee works with the previous block's data")
+	}
+	return n
 }
